@@ -255,13 +255,55 @@ def dump_options(ctx):
     generic.subcommand_dispatch(ctx, "C04-D4e sub-command dispatch", "suit_generator.cmd_sign", 2)
 
 
+
+def _dispatch_helper_rules(ctx, ev, impl, routines_):
+    """Proof form of the dispatch part of C04-D3b over a dedicated selector method (_get_sign_method)."""
+    R = ctx.report
+    names_ = {r: f.name for r, f in routines_.items()}
+    gm = impl.methods.get("_get_sign_method")
+    go = ev.outcomes(gm)
+    table = {}
+    for x in go:
+        if x.kind == "return" and isinstance(x.value, App) and x.value.op == "bound":
+            table[x.value.args[0].obj.name] = [repr(c) for c in x.conds]
+    want = set(names_.values())
+    # complete decision table: the guards touch the key only through isinstance tests and the algorithm only through comparisons
+    isi = {s_ for x in go for c in x.conds for s_ in subterms(c) if isinstance(s_, App) and s_.op == "isinstance"}
+
+    def chosen(kind, alg):
+        env = {P("algorithm"): alg}
+        for s_ in isi:
+            env[s_] = kind in repr(s_.args[1])
+        for x in go:
+            try:
+                if all(bool(teval(c, env)) for c in x.conds):
+                    if x.kind == "return" and isinstance(x.value, App) and x.value.op == "bound":
+                        return x.value.args[0].obj.name
+                    return x.kind
+            except Unknown:
+                return "unknown"
+        return "none"
+    got_t = {(k, a): chosen(k, a) for k in ("EllipticCurvePrivateKey", "Ed25519PrivateKey", "Ed448PrivateKey") for a in ("es-256", "eddsa", "hash-eddsa")}
+    want_t = {}
+    for a in ("es-256", "eddsa", "hash-eddsa"):
+        want_t[("EllipticCurvePrivateKey", a)] = names_.get("es")
+        for k in ("Ed25519PrivateKey", "Ed448PrivateKey"):
+            want_t[(k, a)] = names_.get("prehashed") if a == "hash-eddsa" else names_.get("ed")
+    if "unknown" in got_t.values():
+        raise AnalysisError(f"{ctx.fq(gm)}: dispatch guards not evaluable")
+    diff = {k: (got_t[k], want_t[k]) for k in want_t if got_t[k] != want_t[k]}
+    R.check("C04-D3b EdDSA and dispatch", set(table) == want and not diff,
+            "dispatch: EC key -> ECDSA; Ed key + hash-eddsa -> prehashed; Ed key otherwise -> pure", mod=gm.module, node=gm.node,
+            function=ctx.fq(gm), expected="three-way dispatch on key type and algorithm", found=f"{diff or table}"[:300])
+
 def ecdsa_rules(ctx):
     R = ctx.report
     repo = ctx.repo
     R.rule("C04-D3 fixed-width r||s", 6, "both widths equal, depend only on the key size, big endian, r then s; curve->hash table")
     ev = Evaluator(repo, inline_depth=0)
     for impl in repo.subclasses(repo.cls("suit_generator.suit_kms_base", "SuitKMSBase")):
-        fi = impl.methods.get("_create_cose_es_signature")
+        routines_ = generic.kms_routines(impl)
+        fi = routines_.get("es")
         if fi is None:
             raise AnalysisError(f"{impl.fq}: ECDSA signature encoder not found")
         fq = ctx.fq(fi)
@@ -269,7 +311,9 @@ def ecdsa_rules(ctx):
         outs = generic.sole_outcome(ctx, outs, f"{fq}: expected one outcome")
         v = outs[0].value
         parts = cat_parts(v)
-        pk = P("private_key")
+        if len(fi.params()) < 3:
+            raise AnalysisError(f"{fq}: signing routine does not take (data, key)")
+        inp, pk = P(fi.params()[1]), P(fi.params()[2])  # the routine's data and key parameters, by position
         signcalls = [s for s in subterms(v) if isinstance(s, App) and s.op == "meth:sign" and s.args[0] == pk]
         tb = [p for p in parts if isinstance(p, App) and p.op == "meth:to_bytes"]
         if len(parts) != 2 or len(tb) != 2 or not signcalls:
@@ -284,7 +328,7 @@ def ecdsa_rules(ctx):
         w0, w1 = tb[0].args[1], tb[1].args[1]
         R.check("C04-D3 fixed-width r||s", w0 == w1, "both halves use the same width expression", mod=fi.module, node=fi.node,
                 function=fq, expected="one width", found=f"{w0!r} vs {w1!r}"[:240])
-        dep = [s for s in subterms(w0) if s in (r_, s_, sig, dec, P("input_data")) or (isinstance(s, App) and s.op in (
+        dep = [s for s in subterms(w0) if s in (r_, s_, sig, dec, inp) or (isinstance(s, App) and s.op in (
             "meth:bit_length", "len"))]
         R.check("C04-D3 fixed-width r||s", not dep, "width is independent of the signature value", mod=fi.module, node=fi.node,
                 function=fq, expected="width depends only on private_key.key_size", found=f"depends on {dep[:2]!r}"[:200])
@@ -318,24 +362,26 @@ def ecdsa_rules(ctx):
             except Exception as e:  # pragma: no cover
                 hgot[size] = f"? {e}"
             hok = hok and hgot[size] == want
-        R.check("C04-D3 fixed-width r||s", hok and sig.args[1] == P("input_data"), "ECDSA over the unmodified input with SHA-256/384/512 by curve size",
+        R.check("C04-D3 fixed-width r||s", hok and sig.args[1] == inp, "ECDSA over the unmodified input with SHA-256/384/512 by curve size",
                 mod=fi.module, node=fi.node, function=fq, expected=f"{HASHES}", found=f"{hgot}; data {sig.args[1]!r}")
 
         # EdDSA paths and dispatch
         R.rule("C04-D3b EdDSA and dispatch", 4, "Ed25519/Ed448 sign the unmodified input; prehash = SHA-512; result returned unmodified")
-        ed = impl.methods.get("_create_cose_ed_signature")
+        ed = routines_.get("ed")
         eo = [o for o in ev.outcomes(ed) if o.kind == "return"] if ed else []
-        R.check("C04-D3b EdDSA and dispatch", len(eo) == 1 and eo[0].value == App("meth:sign", (pk, P("input_data"))),
+        ed_in, ed_pk = (P(ed.params()[1]), P(ed.params()[2])) if ed and len(ed.params()) >= 3 else (P("input_data"), P("private_key"))
+        R.check("C04-D3b EdDSA and dispatch", len(eo) == 1 and eo[0].value == App("meth:sign", (ed_pk, ed_in)),
                 "pure EdDSA", mod=ed.module if ed else fi.module, node=ed.node if ed else fi.node, function=ctx.fq(ed) if ed else fq,
                 expected="private_key.sign(input_data)", found=repr(eo[0].value)[:160] if eo else "missing")
-        ph = impl.methods.get("_create_cose_ed_prehashed_signature")
+        ph = routines_.get("prehashed")
         po = [o for o in ev.outcomes(ph) if o.kind == "return"] if ph else []
         okp = False
         if po:
             v = po[0].value
             pre = [s for s in subterms(v) if isinstance(s, App) and s.op.endswith("SHA512.new")]
             mode = [s for s in subterms(v) if isinstance(s, App) and s.op.endswith("eddsa.new")]
-            okp = bool(pre) and pre[0].args[-1] == P("input_data") and bool(mode) and Const("rfc8032") in mode[0].args \
+            ph_in = P(ph.params()[1]) if len(ph.params()) >= 2 else P("input_data")
+            okp = bool(pre) and pre[0].args[-1] == ph_in and bool(mode) and Const("rfc8032") in mode[0].args \
                 and isinstance(v, App) and v.op == "meth:sign" and v.args[1] == pre[0]
         R.check("C04-D3b EdDSA and dispatch", okp, "HashEdDSA: rfc8032 signature over SHA-512(input)", mod=ph.module if ph else fi.module,
                 node=ph.node if ph else fi.node, function=ctx.fq(ph) if ph else fq,
@@ -360,41 +406,7 @@ def ecdsa_rules(ctx):
                     mod=sg.module, node=sg.node, function=ctx.fq(sg), expected="three-way dispatch on key type and algorithm", found=f"{dtab}"[:300])
         if tbl is None or impl.methods.get("_get_sign_method") is not None:
             import contextlib
+            if impl.methods.get("_get_sign_method") is None:
+                raise AnalysisError(f"{ctx.fq(sg)}: neither evaluable as a decision table nor dispatched by _get_sign_method")
             with (R.lenient("decided on the decision table of sign() (C04-D3b)") if tbl is not None else contextlib.nullcontext()):
-                if impl.methods.get("_get_sign_method") is None:
-                    raise AnalysisError(f"{ctx.fq(sg)}: neither evaluable as a decision table nor dispatched by _get_sign_method")
-            gm = impl.methods.get("_get_sign_method")
-            go = ev.outcomes(gm)
-            table = {}
-            for x in go:
-                if x.kind == "return" and isinstance(x.value, App) and x.value.op == "bound":
-                    table[x.value.args[0].obj.name] = [repr(c) for c in x.conds]
-            want = {"_create_cose_es_signature", "_create_cose_ed_prehashed_signature", "_create_cose_ed_signature"}
-            # complete decision table: the guards touch the key only through isinstance tests and the algorithm only through comparisons
-            isi = {s_ for x in go for c in x.conds for s_ in subterms(c) if isinstance(s_, App) and s_.op == "isinstance"}
-
-            def chosen(kind, alg):
-                env = {P("algorithm"): alg}
-                for s_ in isi:
-                    env[s_] = kind in repr(s_.args[1])
-                for x in go:
-                    try:
-                        if all(bool(teval(c, env)) for c in x.conds):
-                            if x.kind == "return" and isinstance(x.value, App) and x.value.op == "bound":
-                                return x.value.args[0].obj.name
-                            return x.kind
-                    except Unknown:
-                        return "unknown"
-                return "none"
-            got_t = {(k, a): chosen(k, a) for k in ("EllipticCurvePrivateKey", "Ed25519PrivateKey", "Ed448PrivateKey") for a in ("es-256", "eddsa", "hash-eddsa")}
-            want_t = {}
-            for a in ("es-256", "eddsa", "hash-eddsa"):
-                want_t[("EllipticCurvePrivateKey", a)] = "_create_cose_es_signature"
-                for k in ("Ed25519PrivateKey", "Ed448PrivateKey"):
-                    want_t[(k, a)] = "_create_cose_ed_prehashed_signature" if a == "hash-eddsa" else "_create_cose_ed_signature"
-            if "unknown" in got_t.values():
-                raise AnalysisError(f"{ctx.fq(gm)}: dispatch guards not evaluable")
-            diff = {k: (got_t[k], want_t[k]) for k in want_t if got_t[k] != want_t[k]}
-            R.check("C04-D3b EdDSA and dispatch", set(table) == want and not diff,
-                    "dispatch: EC key -> ECDSA; Ed key + hash-eddsa -> prehashed; Ed key otherwise -> pure", mod=gm.module, node=gm.node,
-                    function=ctx.fq(gm), expected="three-way dispatch on key type and algorithm", found=f"{diff or table}"[:300])
+                _dispatch_helper_rules(ctx, ev, impl, routines_)
